@@ -15,7 +15,7 @@ actions : ["K", i]     partial function i returns (value 100+i)
   the start of the call is implicit; observation 0 is taken after it.
 answer  : {"results": [[obs0, obs after action 1, ...], ...]}
 obs     : {"pf": ["W" never entered | "R" running | "ok" | "err" | "cancelled", ...],   body of every partial function
-           "alive": number of unfinished asyncio tasks other than the caller,
+           "alive": number of unfinished asyncio tasks other than the caller (entry online: unfinished tasks returned by pool.call),
            "value": semaphore value (entry gather2 only), "waiters": live waiters of the semaphore,
            "caller": "P" | ["V", results] | ["E", name] | "X",
            "at_return": null | {"running": [i..], "alive": k}     taken by the caller at the instant the helper returned or raised
@@ -66,8 +66,11 @@ def run_case(case):
         at_return = [None]
         sema = asyncio.Semaphore(N) if entry in ('gather2', 'online') else None
         caller_box = []
+        online_tasks = []
 
         def alive():
+            if entry == 'online':        # the pool's background tasks (not its internal _shutdown helper task)
+                return sum(1 for t in online_tasks if not t.done())
             return sum(1 for t in asyncio.all_tasks(dl.loop) if not t.done() and (not caller_box or t is not caller_box[0]))
 
         def make_pf(i):
@@ -95,8 +98,6 @@ def run_case(case):
             kw['return_exceptions'] = True
         elif mode == 'cancel':
             kw['cancel_on_error'] = True
-
-        online_tasks = []
 
         async def caller_online():
             async with sema:
